@@ -105,6 +105,30 @@ pub fn run(ctx: &Ctx) -> CheckResult {
         w.golden(c).get(0).map_or(false, |o| o.ok())
     });
 
+    // ---- initial-state variation: the output paths already exist and hold longer, unrelated data
+    let mut stale_cases: Vec<Case> = vec![];
+    for (i, c) in bases.iter().enumerate() {
+        if !compiles[i] || (quick && i % 4 != (ctx.seed % 4) as usize && !c.name.contains("extra/")) {
+            continue;
+        }
+        let mut sc = c.clone();
+        sc.oracle = "stale".into();
+        sc.name = format!("{} [stale outputs]", c.name);
+        let junk: Vec<u8> = (0..6000u32).map(|k| (k * 7 + 13) as u8).collect();
+        sc.inputs.push(crate::case::Input::bytes(scen::OUT, junk.clone()));
+        let mut stale = vec![scen::OUT.to_string()];
+        if sc.steps[0].argv.iter().any(|a| a == "defs.h") {
+            sc.inputs.push(crate::case::Input::bytes("defs.h", junk.clone()));
+            stale.push("defs.h".into());
+        }
+        sc.meta = json!({"stale": stale});
+        stale_cases.push(sc);
+    }
+    let (_r, st_stale, f_stale, h_stale) = par_map(ctx, &stale_cases, |w, _, c| w.judge(c));
+    stats.merge(st_stale);
+    findings.extend(f_stale);
+    herr.extend(h_stale);
+
     // ---- fault campaign
     // group by format class; complete budget enumeration for a seed-rotated member of each class,
     // boundary budgets for the rest (quick: 2 members per class)
@@ -157,6 +181,7 @@ pub fn run(ctx: &Ctx) -> CheckResult {
     extra.insert("fault_jobs_skipped_because_compile_fails".into(), json!(camp.skipped_jobs));
     extra.insert("fault_variants".into(), json!(camp.variants));
     extra.insert("readback_cases".into(), json!(rb.len()));
+    extra.insert("stale_output_cases".into(), json!(stale_cases.len()));
     let mut samples = camp.samples;
     samples.push(json!({"readback": rb.get(0).map(|c| c.steps.iter().map(|s| s.argv.join(" ")).collect::<Vec<_>>())}));
     CheckResult {
